@@ -237,6 +237,8 @@ pub struct ScriptState {
     /// for blocking variants: the key being locked. Stashing its guard would block the only thread forever.
     pub block_key: Option<u32>,
     pub invocations: usize,
+    /// scheduled mode: report each invocation right away as an `ev=` event of the running thread
+    pub sched: bool,
 }
 
 impl ScriptState {
@@ -249,6 +251,7 @@ impl ScriptState {
             sorted,
             block_key,
             invocations: 0,
+            sched: false,
         }
     }
 }
@@ -285,6 +288,10 @@ fn run_round(st: &Script, guards: Vec<GuardBox>, recount: &dyn Fn() -> (usize, V
         s.next_h += guards.len() as u64;
         (round, ids, s.sorted, s.block_key)
     };
+    if st.borrow().sched {
+        // before the guards are touched: dropping them passes hook points, i.e. ends the segment
+        crate::sched::push_event(format!("ev={}", pairs_str(&ids)));
+    }
     if round.fin == Fin::Panic {
         st.borrow_mut().traces.push(format!("ev({})", pairs_str(&ids)));
         // `guards` is still alive here: unwinding drops it
@@ -362,6 +369,15 @@ impl<C> Wrap<C> {
     /// The harness drops all guards, futures and streams before it drops the container.
     fn sref(&self) -> &'static C {
         unsafe { &*Arc::as_ptr(&self.arc) }
+    }
+}
+
+/// for scheduled mode: shared by the worker threads
+pub fn new_shared_container(kind: Kind) -> Arc<dyn Container + Send + Sync> {
+    match kind {
+        Kind::HashMap => Arc::new(Wrap { arc: Arc::new(Hm::new()) }),
+        Kind::Lru => Arc::new(Wrap { arc: Arc::new(Lru::new()) }),
+        Kind::Pool => Arc::new(Wrap { arc: Arc::new(Pool::new()) }),
     }
 }
 
